@@ -207,6 +207,37 @@ def check_split_run(nb: int, k0: int, k1: int, k2: int, j: int, bs: int,
     return h.ok(got == want)
 
 
+STATELESS = (0, 3, 5, 6, 7)
+
+
+def check_split_rerun(nb: int, k0: int, k1: int, bs: int, explicit: bool, flow: List[int]) -> bool:
+    """
+    pre: 1 <= nb <= 2
+    pre: 0 <= k0 <= 4 and 0 <= k1 <= 4
+    pre: 1 <= bs <= B.BUF + 2
+    pre: len(flow) <= B.FLOW
+    pre: h.in_shard(k0)
+    post: _
+    """
+    # a Split object run again (its branches have no state of their own)
+    # follows the same schedule; branches given as explicit Sequence objects
+    # behave like the tuples they are built from
+    kinds = [h.choose(STATELESS, k) for k in [k0, k1][:nb]]
+    bufsize = _bufsize(bs)
+    branches = []
+    for t, k in enumerate(kinds):
+        br = make_branch(k, t, 0)
+        if explicit and isinstance(br, tuple):
+            br = Sequence(*br)
+        branches.append(br)
+    s = Split(branches, bufsize=bufsize)
+    want = ref_split(kinds, 0, bufsize, list(flow))
+    first = list(s.run(iter(list(flow))))
+    second = list(s.run(iter(list(flow))))
+    third = list(s.run(iter([])))
+    return h.ok(first == want and second == want and third == ref_split(kinds, 0, bufsize, []))
+
+
 def check_split_copy_buf(k0: int, k1: int, j: int, bs: int, copy_buf: bool,
                          flow: List[int]) -> bool:
     """
@@ -370,6 +401,8 @@ CONDITIONS = [
                 "check_split_run(2, 0, 3, 0, 1, 1, [5, 7])",
                 "check_split_run(2, 6, 4, 0, 0, 4, [])",
                 "check_split_run(0, 0, 0, 0, 0, 1, [4, 5])"]),
+    dict(fn="check_split_rerun", shards=(5, 5), budget=(70, 600),
+         smoke=["check_split_rerun(2, 0, 2, 1, False, [5, 7])", "check_split_rerun(2, 1, 3, 2, True, [5, 7, 9])"]),
     dict(fn="check_split_copy_buf", shards=(7, 7), budget=(90, 300),
          smoke=["check_split_copy_buf(1, 5, 0, 1, False, [5, 7])"]),
     dict(fn="check_split_once_on_empty", shards=(4, 8), budget=(60, 300),
